@@ -8,7 +8,7 @@ event-level transliteration of the C functions in `Driver/CallRcu.lean` ("L1") m
 event stream of the real code exactly and replays the labels below on `step`.
 
 * helpers `h : Nat` (arbitrarily many, created dynamically: `h < nextH`), each with
-  `queue h : List Cb` – the wait-free queue `crdp->cbs` as an abstract FIFO whose enqueue is atomic
+  `queue h : List Nat` – the wait-free queue `crdp->cbs` as an abstract FIFO whose enqueue is atomic
   at the `xchg` of the tail (justified by C10; the delayed `old_tail->next` store and the
   dequeuer's busy-wait on it are checked at L1 only), `batch h` – the private list the helper
   spliced out and is going to invoke, `cur h` – the callback being executed, `futex`, the flag
@@ -26,6 +26,8 @@ event stream of the real code exactly and replays the labels below on `step`.
   markers, continuation `K.ext`) and the wake path by `_call_rcu_data_free` (`K.fstop`, `K.fdflt`);
 * callbacks run on the helper's thread between `hRunBegin` and `hRunEnd`; while one runs the
   helper's thread may execute any user operation (in particular `call_rcu` again);
+* callbacks are identified by a number `id` (the `rcu_head`); `mark id = some (b, h)` tags the marker
+  work items of `rcu_barrier` (outer layer), all other ids are user callbacks;
 * ghost: logical clock, `loc id` (where callback `id` currently is), `enqT`, `invN` (number of
   invocations), `fin`, per-helper logs `enqLog`/`invLog`, `hgp` (start of the helper's grace
   period), `gpDone`, `unpubT` (time a helper was last removed from the per-CPU array), `via`.
@@ -39,11 +41,6 @@ structure Cfg where
   n : Nat          -- user thread ids are `t < n`; helper `h` runs on thread `n + h`
   ncpu : Nat       -- length of the per-CPU array (`cpus_array_len`)
   deriving Repr
-
-/-- a callback: a user `rcu_head` (identified by `id`) or the marker work item of barrier `b`
-that was queued on helper `h` -/
-inductive Cb | user (id : Nat) | mark (b h : Nat)
-  deriving DecidableEq, Repr
 
 /-- ghost: where a user callback is -/
 inductive Loc | none | pend (t : Nat) | queue (h : Nat) | batch (h : Nat) | run (h : Nat) | done
@@ -80,7 +77,7 @@ inductive TPc
   | idle | ext | sync
   | sel (id : Nat)
   | gdLd (k : GK) | gdLock (k : GK) | gdCreate (k : GK) | gdUnlock (k : GK)
-  | enq (cb : Cb) (h : Nat) (k : K) | inc (h : Nat) (k : K)
+  | enq (id : Nat) (h : Nat) (k : K) | inc (h : Nat) (k : K)
   | ldFlags (h : Nat) (k : K) | ldFutex (h : Nat) (k : K) | stFutex (h : Nat) (k : K) | wake (h : Nat) (k : K)
   | crRet
   | opLock (op : LOp) | opDo (op : LOp) | opUnlock (r : Res)
@@ -102,9 +99,9 @@ inductive FOut | sleep | eagain | eintr | spurious
 structure State where
   -- helpers
   hpc     : Nat → HPc
-  queue   : Nat → List Cb
-  batch   : Nat → List Cb
-  cur     : Nat → Option Cb
+  queue   : Nat → List Nat
+  batch   : Nat → List Nat
+  cur     : Nat → Option Nat
   rt      : Nat → Bool
   stop    : Nat → Bool
   stopped : Nat → Bool
@@ -137,12 +134,12 @@ structure State where
   enqT    : Nat → Nat
   invN    : Nat → Nat
   fin     : Nat → Bool
-  mreg    : Nat → Nat → Bool
+  mark    : Nat → Option (Nat × Nat)   -- ghost: the callback is the marker of barrier b queued on helper h
   hgp     : Nat → Option Nat
   gpDone  : Nat
   unpubT  : Nat → Nat
-  enqLog  : Nat → List Cb
-  invLog  : Nat → List Cb
+  enqLog  : Nat → List Nat
+  invLog  : Nat → List Nat
 
 def init : State :=
   { hpc := fun _ => .none, queue := fun _ => [], batch := fun _ => [], cur := fun _ => none,
@@ -152,7 +149,7 @@ def init : State :=
     dflt := none, arr := false, percpu := fun _ => none, thr := fun _ => none, mutex := none,
     tpc := fun _ => .idle, nest := fun _ => 0, cs := fun _ => none, ugp := fun _ => none, via := fun _ => .dflt,
     clock := 1, reg := fun _ => false, loc := fun _ => .none, enqT := fun _ => 0, invN := fun _ => 0,
-    fin := fun _ => false, mreg := fun _ _ => false, hgp := fun _ => none, gpDone := 0, unpubT := fun _ => 0,
+    fin := fun _ => false, mark := fun _ => none, hgp := fun _ => none, gpDone := 0, unpubT := fun _ => 0,
     enqLog := fun _ => [], invLog := fun _ => [] }
 
 inductive Label
@@ -176,7 +173,7 @@ inductive Label
   | hSub (h : Nat) | hStopChk (h : Nat) | hEmptyChk (h : Nat) | hWaitLd (h : Nat) | hWaitFx (h : Nat) (o : FOut)
   | hSpurious (h : Nat) | hPollW (h : Nat) | hDec (h : Nat) | hPollN (h : Nat) | hExitSt (h : Nat) | hExitOr (h : Nat)
   -- hooks for outer layers (rcu_barrier, fork handlers)
-  | extBegin (t : Nat) | extEnd (t : Nat) | extLock (t : Nat) | extUnlock (t : Nat) | extCall (t b h : Nat)
+  | extBegin (t : Nat) | extEnd (t : Nat) | extLock (t : Nat) | extUnlock (t : Nat) | extCall (t id b h : Nat)
   | envPause (h : Nat) (v : Bool)
   deriving DecidableEq, Repr
 
@@ -290,13 +287,13 @@ def step (c : Cfg) (s : State) : Label → Option State
   | .crSelThr t =>
     match s.tpc t, s.thr t with
     | .sel id, some h =>
-      some { s with tpc := upd s.tpc t (.enq (.user id) h .user), via := upd s.via t .thr, clock := s.clock + 1 }
+      some { s with tpc := upd s.tpc t (.enq id h .user), via := upd s.via t .thr, clock := s.clock + 1 }
     | _, _ => none
   | .crSelCpu t cpu =>
     match s.tpc t, s.thr t, s.percpu cpu with
     | .sel id, none, some h =>
       if s.arr = true ∧ cpu < c.ncpu then
-        some { s with tpc := upd s.tpc t (.enq (.user id) h .user), via := upd s.via t .cpu, clock := s.clock + 1 }
+        some { s with tpc := upd s.tpc t (.enq id h .user), via := upd s.via t .cpu, clock := s.clock + 1 }
       else none
     | _, _, _ => none
   | .crSelNoCpu t cpu =>
@@ -314,7 +311,7 @@ def step (c : Cfg) (s : State) : Label → Option State
       match s.dflt with
       | some d =>
         match k with
-        | .call id => some { s with tpc := upd s.tpc t (.enq (.user id) d .user), via := upd s.via t .dflt, clock := s.clock + 1 }
+        | .call id => some { s with tpc := upd s.tpc t (.enq id d .user), via := upd s.via t .dflt, clock := s.clock + 1 }
         | .free h0 => some { s with tpc := upd s.tpc t (.fLock2 h0), clock := s.clock + 1 }
         | .ret => some { s with tpc := upd s.tpc t .idle, clock := s.clock + 1 }
       | none => some { s with tpc := upd s.tpc t (.gdLock k), clock := s.clock + 1 }
@@ -338,19 +335,17 @@ def step (c : Cfg) (s : State) : Label → Option State
     | .gdUnlock k, some d =>
       if s.mutex = some t then
         match k with
-        | .call id => some { s with mutex := none, tpc := upd s.tpc t (.enq (.user id) d .user), via := upd s.via t .dflt, clock := s.clock + 1 }
+        | .call id => some { s with mutex := none, tpc := upd s.tpc t (.enq id d .user), via := upd s.via t .dflt, clock := s.clock + 1 }
         | .free h0 => some { s with mutex := none, tpc := upd s.tpc t (.fLock2 h0), clock := s.clock + 1 }
         | .ret => some { s with mutex := none, tpc := upd s.tpc t .idle, clock := s.clock + 1 }
       else none
     | _, _ => none
   | .enq t =>
     match s.tpc t with
-    | .enq cb h k =>
-      some { s with tpc := upd s.tpc t (.inc h k), queue := upd s.queue h (s.queue h ++ [cb]),
-                    enqLog := upd s.enqLog h (s.enqLog h ++ [cb]),
-                    loc := (match cb with | .user id => upd s.loc id (.queue h) | .mark _ _ => s.loc),
-                    enqT := (match cb with | .user id => upd s.enqT id s.clock | .mark _ _ => s.enqT),
-                    clock := s.clock + 1 }
+    | .enq id h k =>
+      some { s with tpc := upd s.tpc t (.inc h k), queue := upd s.queue h (s.queue h ++ [id]),
+                    enqLog := upd s.enqLog h (s.enqLog h ++ [id]),
+                    loc := upd s.loc id (.queue h), enqT := upd s.enqT id s.clock, clock := s.clock + 1 }
     | _ => none
   | .inc t =>
     match s.tpc t with
@@ -540,9 +535,7 @@ def step (c : Cfg) (s : State) : Label → Option State
       if s.hpc h = .inv then
         some { s with hpc := upd s.hpc h .run, batch := upd s.batch h rest, cur := upd s.cur h (some cb),
                       invLog := upd s.invLog h (s.invLog h ++ [cb]),
-                      loc := (match cb with | .user id => upd s.loc id (.run h) | .mark _ _ => s.loc),
-                      invN := (match cb with | .user id => upd s.invN id (s.invN id + 1) | .mark _ _ => s.invN),
-                      clock := s.clock + 1 }
+                      loc := upd s.loc cb (.run h), invN := upd s.invN cb (s.invN cb + 1), clock := s.clock + 1 }
       else none
     | [] => none
   | .hRunEnd h =>
@@ -550,9 +543,7 @@ def step (c : Cfg) (s : State) : Label → Option State
     | some cb =>
       if s.hpc h = .run ∧ s.tpc (c.n + h) = .idle then
         some { s with hpc := upd s.hpc h .inv, cur := upd s.cur h none, cnt := upd s.cnt h (s.cnt h + 1),
-                      loc := (match cb with | .user id => upd s.loc id .done | .mark _ _ => s.loc),
-                      fin := (match cb with | .user id => upd s.fin id true | .mark _ _ => s.fin),
-                      clock := s.clock + 1 }
+                      loc := upd s.loc cb .done, fin := upd s.fin cb true, clock := s.clock + 1 }
       else none
     | none => none
   | .hInvDone h =>
@@ -603,10 +594,10 @@ def step (c : Cfg) (s : State) : Label → Option State
     if s.tpc t = .ext ∧ s.mutex = none then some { s with mutex := some t, clock := s.clock + 1 } else none
   | .extUnlock t =>
     if s.tpc t = .ext ∧ s.mutex = some t then some { s with mutex := none, clock := s.clock + 1 } else none
-  | .extCall t b h =>
-    if s.tpc t = .ext ∧ s.mutex = some t ∧ h ∈ s.list ∧ s.mreg b h = false then
-      some { s with tpc := upd s.tpc t (.enq (.mark b h) h .ext), via := upd s.via t .ext,
-                    mreg := fun b' h' => if b' = b ∧ h' = h then true else s.mreg b' h', clock := s.clock + 1 }
+  | .extCall t id b h =>
+    if s.tpc t = .ext ∧ s.mutex = some t ∧ h ∈ s.list ∧ s.reg id = false then
+      some { s with tpc := upd s.tpc t (.enq id h .ext), via := upd s.via t .ext, reg := upd s.reg id true,
+                    loc := upd s.loc id (.pend t), mark := upd s.mark id (some (b, h)), clock := s.clock + 1 }
     else none
   | .envPause h v =>
     -- fork handlers (C16): `call_rcu_before_fork` / `call_rcu_after_fork_parent` flip PAUSE under the mutex
@@ -625,7 +616,7 @@ def run (c : Cfg) : State → List Label → Option State
     | some s' => run c s' ls
 
 /-- the callbacks helper `h` still has to execute, in the order it will execute them -/
-def pend (s : State) (h : Nat) : List Cb :=
+def pend (s : State) (h : Nat) : List Nat :=
   (match s.cur h with | some cb => [cb] | none => []) ++ s.batch h ++ s.queue h
 
 end UrcuVerif.CallRcu
